@@ -27,6 +27,8 @@ type Opts struct {
 	ROR2 bool
 	// AltNumbers: alternative but legal spellings of float literals (JSON only).
 	AltNumbers bool
+	// LenientFixed: do not check the size of fixed leaves (used by known-finding signatures only).
+	LenientFixed bool
 }
 
 func bytesToText(b []byte, m BytesMode) string {
@@ -215,7 +217,7 @@ func FromTree(s *schema.Schema, t schema.Type, tr *Tree, o Opts) (*aval.V, error
 		if err != nil {
 			return nil, err
 		}
-		if len(b) != n.Size {
+		if len(b) != n.Size && !o.LenientFixed {
 			return nil, fmt.Errorf("fixed %s has %d bytes, want %d", n.Name, len(b), n.Size)
 		}
 		return aval.Fixed(b), nil
@@ -249,6 +251,15 @@ func FromTree(s *schema.Schema, t schema.Type, tr *Tree, o Opts) (*aval.V, error
 }
 
 func primFromTree(p string, tr *Tree, o Opts) (*aval.V, error) {
+	if o.ROR2 && (tr.Kind == "num" || tr.Kind == "bool") {
+		// a tree built by TreeOf rather than parsed from a ROR2 document: its leaves render as this text
+		c := *tr
+		c.Kind = "str"
+		if tr.Kind == "bool" {
+			c.Str = strconv.FormatBool(tr.Bool)
+		}
+		tr = &c
+	}
 	text := func() (string, error) {
 		if o.ROR2 {
 			if tr.Kind != "str" {
